@@ -152,18 +152,21 @@ class C16(Prop):
                  "g_add_blocked", "g_is_kind5", "g_del_is_kind5", "g_del_other_author", "g_k5_tag_short",
                  "g_k5_tag_name", "g_full_scan", "g_index_over_limit", "g_done", "handler.go", "event_cache.go")
     rule = ("case i: i mod 5 in {0,1} a cache session, {2,3} a dump/restore case, 4 a SQLite session.  "
-            "Cache session: capacity 1..6 (100 in one of six), a pool of 4..14 events (3 authors, ids e0..eN, kinds "
+            "Cache session: capacity 1..6 (100 in one of three), a pool of 4..14 events (3 authors, ids e0..eN, kinds "
             "1/0/3/10000/30000/30001/20000/5, timestamps 0..6 with ties, ordinary tags incl. one-element and 3-element "
             "ones, d tags absent / ['d'] / twice, deletion requests with e references to non-ephemeral pool events "
             "before or after them incl. themselves, a references to addressable addresses, 3-element tags, ['e'], "
             "unknown ids; contents with NUL, astral characters, U+2028/9, quotes), 0..24 messages: 50% EVENT (12% a "
-            "re-offer), 28% REQ (sub s1/s2/'', 1..3 filters over ids/authors/kinds/#t#p#d#e#a/since/until/limit 0..3), "
+            "re-offer), 28% REQ (sub s1/s2/'', 1..3 filters over ids/authors/kinds/#t#p#d#e#a/since/until/limit 0..3; 30% of them one filter with a single "
+            "id/author/kind of an event already offered plus a second condition, 30% of the rest an earlier REQ again with one "
+            "condition fewer per filter: an answer must not depend on what was asked before), "
             "8% COUNT, 7% CLOSE, 7% AUTH; after every message a COUNT sentinel (part of the recorded session) closes "
             "the reply window, and after every EVENT the match-everything listing of the store is taken.  "
             "Dump/restore: 0..30 events drawn with repetition from such a pool are added, the store is listed, dumped "
             "(the JSON is decoded independently of the relay's decoder), restored into a fresh handler, and 4 filter "
             "lists are asked of both.  SQLite session: gate-valid pool of 2..10 events (hex ids, 3 authors, kinds "
-            "1/0/3/10000/30000 with d/20000/5 with two-element e/a references), 0..20 messages 50% EVENT, 30% REQ "
+            "1/0/3/10000/30000 with d/20000/5 with two-element e/a references), a quarter of the events with two different values under one tag letter, 0..20 messages 50% EVENT, 30% REQ (a "
+            "fifth of them: both values of a tag letter with limit 1..3) "
             "(limit absent or 1..4), 20% COUNT/CLOSE/AUTH, EventBulkInsertNum=1, MaxLimit NoLimit (85%) or 1000; before "
             "a REQ that follows an EVENT a sync EVENT is sent and the database polled until it is stored.  "
             "Non-trivial: a cache session with a rejected OK, a non-empty REQ answer and a listing that lost an event "
